@@ -308,8 +308,9 @@ def run_conc(prop, tier, seed, replay=None):
         "distinct_nontrivial": nontrivial,
         "rule": "states/transitions: TLC's exhaustive check of the design model spec/Proxy.tla against its D_* invariants on the "
                 "bounded configurations listed under design_model. One evaluation = one scenario executed on the real proxy under "
-                "the controller (random/PCT/freeze schedules, and schedules derived from TLC behaviours of the design model: "
-                "witness goals, pinned-variant counterexamples, random simulation) and validated by TLC against spec/ObsTrace.tla; "
+                "the controller (random/PCT/freeze schedules; schedules derived from TLC behaviours of the design model: "
+                "witness goals, pinned-variant counterexamples, random simulation; duels: goroutines collected at chosen hooks, "
+                "released together and lined up on the real clock) and validated by TLC against spec/ObsTrace.tla; "
                 "distinct_nontrivial = sum over this property's invariants of the number of distinct scenarios in which the "
                 "invariant's antecedent was satisfied at least once (counted by the trace spec itself)",
         "design_model": mc,
